@@ -144,7 +144,10 @@ def generated(rnd: random.Random, n: int) -> list[str]:
             return rnd.choice(leaves_b)
         f = rnd.choice(["and_v", "and_b", "or_b", "or_c", "or_d", "or_i", "andor", "thresh", "wrap", "wrap"])
         if f == "wrap":
-            return "".join(rnd.sample(WRAPPERS, rnd.randint(1, 2))) + ":" + gen(depth - 1)
+            w, inner = "".join(rnd.sample(WRAPPERS, rnd.randint(1, 2))), gen(depth - 1)
+            head = inner.split("(")[0]
+            # wrappers are written as one run before one colon: n over u:X is nu:X (a second colon is not miniscript)
+            return w + inner if ":" in head else w + ":" + inner
         if f == "andor":
             return f"andor({gen(depth - 1)},{gen(depth - 1)},{gen(depth - 1)})"
         if f == "thresh":
